@@ -60,10 +60,14 @@ Print Assumptions C11_invariant_coherent_pair.
    with every well-formed flag word, Remove, RemoveAll, Rename incl. whole subtrees and into directories the
    cache does not hold yet, Stat, Chmod, Chown, Chtimes, and the 13 handle methods on every kind of slot), every
    cache duration, every value of time.Now(), every outcome of cacheStatus (miss / stale / hit; "local" cannot
-   arise), every file size.  [cwf_op dur now st o] (Proofs/CacheInvMain.v, computable): o is well-formed for the
-   BASE's current tree in the sense of C01 (WfOps.wf_op: the ordinary POSIX preconditions; Read/ReadAt buffer
-   length >= 0; flag words without O_APPEND), and o is not OpenFile of a base DIRECTORY that cacheStatus does
-   not serve as a hit — the one call outside the class, a defect of cacheOnReadFs.go: C11_openfile_uncached_dir_refuted. *)
+   arise), every file size.  [cwf_op dur now st o] (Proofs/CacheInvMain.v, computable): o is in the portable class
+   of C01 for the BASE's current tree (WfOps.wf_op = wf_op_ord || wf_below: the ordinary POSIX preconditions —
+   Read/ReadAt buffer length >= 0, flag words without O_APPEND — OR a creating call whose name passes through a
+   regular file of the base: the base answers ENOTDIR; Create / Mkdir / MkdirAll / OpenFile(O_CREATE) then
+   leave both layers as they are, Rename may first have copied its source into the layer, which keeps the
+   invariant: C11_ex_below_file).  Nothing else: the call that used to be outside the class — OpenFile of a base
+   directory that is not a cache hit, copied like a file (EIO) — is repaired (switch cache_openfile_dir_mkdir = 1,
+   CacheInvPath.cache_openfile_dir_mkdir_fact; C11_openfile_uncached_dir_before_fix). *)
 Theorem C11_invariant_step :
   forall (dur now : Z) (st : mst * mst * list chandle) (o : op),
   CInv st -> cwf_op dur now st o = true -> CInv (fst (cache_step m_step m_step dur now st o)).
@@ -75,7 +79,7 @@ Print Assumptions C11_invariant_step.
    (each call with its own time.Now()), from ANY pair that satisfies the invariant — in particular from the
    empty pair — every UnionFile of the table is coherent, every slot is aligned with every other, and each file
    (each name) of the cache layer exists in the base with the same kind and identical content.
-   Nothing is missing for the class of well-formed calls; outside it: C11_openfile_uncached_dir_refuted. *)
+   Nothing is missing. *)
 Theorem C11_table_coherent :
   forall (dur : Z) (steps1 steps2 : list (Z * op)) (st : mst * mst * list chandle),
   CInv st -> cwf_seq dur st (steps1 ++ steps2) = true ->
@@ -290,16 +294,30 @@ Example C11_ex_sequence_result :
    [[47]; [47;110]; [47;120]; [47;120;47;121]; [47;120;47;121;47;122]; [47;120;47;121;47;122;47;119]]%N, 4%nat).
 Proof. vm_compute. reflexivity. Qed.
 
-(* ---- the call outside the class (a defect of cacheOnReadFs.go, reported; corpus/C11/openfile-uncached-dir.case):
-   OpenFile(O_RDONLY) of a DIRECTORY the cache does not hold.  CacheOnReadFs.OpenFile sends every miss / stale
+(* ---- the defect this proof found, repaired since (corpus/C11/openfile-uncached-dir.case are regression cases now):
+   OpenFile(O_RDONLY) of a DIRECTORY the cache does not hold.  CacheOnReadFs.OpenFile sent every miss / stale
    name through copyFileToLayer, which copies a directory like a file: 0 bytes read, Size() of the directory
-   differs, EIO.  On the base alone the same call returns a handle.  (CacheOnReadFs.copyToLayer, used by Open /
-   Chtimes / Chmod / Chown / Rename, makes the directory in the layer instead: fix e325f56.) ---- *)
-Example C11_openfile_uncached_dir_refuted :
+   differs, EIO (and for a stale cached directory the layer was damaged).  On the base alone the same call
+   returns a handle.  Since the fix OpenFile Stats the base first and makes a directory in the layer with
+   MkdirAll (what CacheOnReadFs.copyToLayer does since e325f56): the switch cache_openfile_dir_mkdir, read
+   from the source, is 1 and the call returns a handle.  The Example holds for either value of the switch. ---- *)
+Example C11_openfile_uncached_dir_before_fix :
   exists (st : mst * mst * list chandle) (o : op),
-    CInv st /\ WfOps.wf_op (fst (fst st)) o = true /\ cwf_op 0 BIG st o = false /\
-    snd (cache_step m_step m_step 0 BIG st o) = RErr (E KEIO) /\
+    CInv st /\ WfOps.wf_op (fst (fst st)) o = true /\
+    snd (cache_step m_step m_step 0 BIG st o) = (if cache_openfile_dir_mkdir =? 1 then RHandle 0 else RErr (E KEIO)) /\
     snd (m_step (fst (fst st)) o) = RHandle 2.
 Proof.
   exists (c11_base, m_init, []), (OpenFile p_d 0 0). split; [exact C11_ex_start|]. vm_compute. repeat split; reflexivity.
 Qed.
+
+(* ---- the calls below a regular file of the base are in the class: /g is a regular file; Create(/g/x) through the
+   cache answers ENOTDIR and nothing changes; Rename(/d/f, /g/x) answers ENOTDIR after /d/f has been copied into
+   the cache layer (copyToLayer comes before the base's Rename) ---- *)
+Definition p_gx : str := [47; 103; 47; 120]%N.                          (* /g/x *)
+Example C11_ex_below_file :
+  cwf_seq 0 (c11_base, m_init, []) [(BIG, Create p_gx); (BIG + 1, Mkdir p_gx 493); (BIG + 2, OpenFile p_gx 66 420); (BIG + 3, Rename p_df p_gx)] = true /\
+  snd (cache_step m_step m_step 0 BIG (c11_base, m_init, []) (Create p_gx)) = RErr (EW KENOTDIR) /\
+  (let '((sb, sl, _), r) := cache_step m_step m_step 0 BIG (c11_base, m_init, []) (Rename p_df p_gx) in
+   (r, map e_path (snapshot sb), map e_path (snapshot sl))) =
+  (RErr (EW KENOTDIR), [[47]; [47;100]; [47;100;47;102]; [47;101]; [47;103]]%N, [[47]; [47;100]; [47;100;47;102]]%N).
+Proof. vm_compute. repeat split; reflexivity. Qed.
